@@ -137,12 +137,16 @@ CLAIMS['C09'] = dict(
     design_ref='DESIGN.md 5 C09')
 
 CLAIMS['C10'] = dict(
-    text='PARTIAL: proof that create_ranges yields one stretch per token, ordered by the key, each starting at its token and ending where the next one starts or at the end '
-         'of its line, whichever comes first (the definition of "stretch" in the property). The sweep of adjust_mappings itself -- labelled breaks out of nested loops over two '
-         'hand-advanced iterators, `as i32` displacement arithmetic -- was not brought within reach: its contract, the interval-by-interval composition of the statement, is '
-         'checked by a BOUNDED stand-in on the real crate (bounded/: adjust, adjust_dups). Known finding D10 (duplicate positions).',
-    note=_TB + 'Peekable / map_or / cmp::min / sort_unstable_by_key are assumed by contract; the fn-pointer parameter is verified as a generic Fn (R-fnptr). Bound of the stand-in: original maps of <= 3 tokens '
-         'and adjustment maps of <= 2 tokens over small grids with 4 displacements.',
+    text='Unbounded proof of the real text of adjust_mappings (the sweep over the two stretch lists with its labelled breaks, the clipping, the `as i32` displacement arithmetic and the final sort) and of the nested '
+         'create_ranges: create_ranges yields one stretch per token, ordered by the key, each starting at its token and ending where the next one starts or at the end of its line (the statement\'s "stretch"); '
+         'for those two stretch lists the tokens pushed by the sweep are exactly rows(os, ads): for every adjustment stretch in order and every original stretch in order, one token per NON-EMPTY overlap '
+         '(max of the starts < min of the ends), placed at the start of the overlap plus the adjustment token\'s generated-minus-original displacement, with the original token\'s source id, original position, name id '
+         'and range flag; the result is that list sorted by generated position (a permutation: multiset equality); file, names, sources, root, prefixed-name cache, contents, ignore list and debug id are unchanged; '
+         'no arithmetic overflows and all three loops terminate. CONDITIONAL: the exactly-one-token clause is proved for inputs whose stretches are all non-empty (no two original tokens at one generated position, no two adjustment tokens at one original position); '
+         'with an empty stretch the code emits extra tokens -- known finding D10, reported by the bounded stand-in adjust_dups.',
+    note=_TB + 'Requires generated positions of the map and both positions of the adjustment map below 2^30 (the `as i32` casts and their sums then stay in range; beyond 2^31 the casts wrap). Assumed: mem::take, Vec<RawToken>::clone, slice::Iter::next, '
+         'cmp::max / cmp::min on pairs, Peekable, sort_unstable_by_key (sorted permutation); `for &x in &v` is verified in its desugared form (R-for-slice). The fn-pointer parameter of create_ranges is verified as a generic Fn (R-fnptr). '
+         'That distinct positions imply non-empty stretches is not proved (it needs a permutation argument); the hypothesis is stated on the stretches. The bounded stand-ins adjust / adjust_dups still run through the public API.',
     design_ref='DESIGN.md 5 C10')
 
 _BOUNDED_ONLY = ('BOUNDED STAND-IN ONLY, no proof: %s No obligation is discharged for this property; its contract is checked by exhaustive enumeration over a stated '
@@ -219,7 +223,7 @@ NOT_COVERED = {
     'C18': ['how BufReader::lines cuts bytes into lines (std; assumed -- exercised by the bounded stand-in discover incl. texts larger than any buffer)', 'to_data_url / decode_data_url round trip (base64 of two crates): bounded', 'is_sourcemap / is_sourcemap_slice wiring around serde_json: bounded (header, discover)'],
     'C19': ['the std adapter chains inside make_relative_path are behind assumed contracts (split/filter/collect, sort_by_key, repeat/take/collect, join); the bounded stand-in relpath exercises the real ones', 'find_common_prefix (the rewrite "~" option): not part of C19'],
     'C20': ['scroll::Pread internals and the derive(Pread) expansion (assumed contracts; exercised by the bounded stand-in ram_bundle)', 'UnbundleRamBundle (file-system based variant)', 'split_ram_bundle / SplitRamBundleModuleIter (composition with flatten and SourceMapBuilder)', 'that Iterator::next of RamBundleModuleIter is the inherent body verified here (R-trait-inherent: same text, emitted outside the trait impl)'],
-    'C10': ['the sweep of adjust_mappings (skip / overlap / clip / advance, displacement arithmetic, final sort): bounded stand-in only', 'positions >= 2^31 (as i32)'],
+    'C10': ['inputs with an empty stretch (two tokens at one position, column u32::MAX): the exactly-one-token clause is conditional on non-empty stretches (known finding D10 lives there); bounded stand-in adjust_dups', 'positions >= 2^30 (`as i32` arithmetic): outside the precondition', 'that distinct positions imply non-empty stretches (stated as a hypothesis on the stretches)'],
     'C09': ['strip_prefixes, find_common_prefix ("~") (bounded stand-in rewrite only)', 'load_local_source_contents (filesystem; excluded by the property)', 'SourceMapHermes::rewrite function-map permutation (bounded stand-in only)'],
     'C05': ['dependencies (serde_json, url, bitvec, data-encoding, base64-simd, debugid)', 'sourceview.rs, js_identifiers.rs, detector.rs line scan, Display/Debug impls, ram_bundle.rs',
             'flatten (+ off_col / + off_line overflow, design-phase defect D6), rewrite, adjust_mappings, range bitfield writer (D4), decode_hermes', 'allocation in proportion to the input; wall-clock (only termination is proved)'],
@@ -232,5 +236,5 @@ NOT_COVERED = {
     'C11': ['an independent syntactic characterisation of canonical texts (canonical is defined as the image of the reference encoder)'],
     'C12': ['detection predicates is_sourcemap / is_sourcemap_slice wiring', 'decode_data_url'],
     'C13': ['"serialisation writes raw names plus root" (as_raw_sourcemap)', 'strip_prefixes'],
-    'C04': ['adjust_mappings re-sort and rewrite / flatten as token producers (their results go through into_sourcemap / SourceMap::new, which are proved)'],
+    'C04': ['rewrite / flatten as token producers are covered through into_sourcemap / SourceMap::new (proved); adjust_mappings through its own clause ens_result_ordered_by_generated_position'],
 }
